@@ -35,6 +35,8 @@ type Contract struct {
 	LoopInv    map[int][]*Clause
 	LoopMod    map[int][]*Clause
 	Ghost      []*Clause // ghost updates: "ghost at return: x = e" / "ghost at call n: ..."
+	Preserves  []*Clause         // preserves items: exceptions to modifies everything
+	Maintains  []*Clause         // maintains E (also in Requires and Ensures)
 	GhostLocal map[string]string // "ghost local name Sort": ghost variables of one activation (no callee can change them)
 	Callback   map[string]*Contract
 	PanicsIf   *Clause
@@ -122,7 +124,7 @@ func (ss *SpecSet) LoadFile(path, pkgPath string, trusted bool) error {
 	return ss.parse(src, path, pkgPath, trusted)
 }
 
-var clauseKW = map[string]bool{"requires": true, "ensures": true, "modifies": true, "instantiate": true, "loop": true,
+var clauseKW = map[string]bool{"preserves": true, "maintains": true, "requires": true, "ensures": true, "modifies": true, "instantiate": true, "loop": true,
 	"ghost": true, "callback": true, "modifies-if": true, "closeonly": true, "panics-iff": true, "panics-when": true, "invariant": true, "opt": true, "monitor": true, "assert": true,
 	"func": true, "assume-func": true, "type": true, "assumes": true, "global-invariant": true, "axiom": true, "specfun": true, "global": true, "sentinel": true, "package": true, "end": true}
 
@@ -413,6 +415,21 @@ func (ss *SpecSet) parse(src, file, pkgPath string, trusted bool) error {
 				for _, t := range splitTopCommas(rest[j+1:]) {
 					cur.Inst[tp] = append(cur.Inst[tp], strings.TrimSpace(t))
 				}
+			case "maintains":
+				// maintains E: requires E and ensures E; where a callee invokes this function any number of times
+				// (opt invokes) E is an invariant of that iteration: required before, known afterwards
+				for _, k2 := range []string{"requires", "ensures"} {
+					cl, err := mk(k2, "", rest, l.no)
+					if err != nil {
+						return err
+					}
+					if k2 == "requires" {
+						tgt.Requires = append(tgt.Requires, cl)
+						tgt.Maintains = append(tgt.Maintains, cl)
+					} else {
+						tgt.Ensures = append(tgt.Ensures, cl)
+					}
+				}
 			case "requires", "ensures", "assert", "assumes":
 				cl, err := mk(kw, "", rest, l.no)
 				if err != nil {
@@ -447,6 +464,15 @@ func (ss *SpecSet) parse(src, file, pkgPath string, trusted bool) error {
 						return err
 					}
 					tgt.Modifies = append(tgt.Modifies, cl)
+				}
+			case "preserves":
+				// preserves a, b: exceptions to `modifies everything` (checked as a frame for exactly these items)
+				for _, item := range splitTop(rest) {
+					cl, err := mk("modifies", "", item, l.no)
+					if err != nil {
+						return err
+					}
+					tgt.Preserves = append(tgt.Preserves, cl)
 				}
 			case "modifies-if":
 				// modifies-if <cond> then a, b: the items may change only when cond holds in the pre-state
